@@ -1,4 +1,5 @@
 import ClaripyProofs.Lemmas.VSA.SextSound
+import ClaripyProofs.Lemmas.VSA.ZextBounds
 /-! `_psplit` (split at both poles): the `for` loop as a structural recursion, and what the pieces guarantee — well
 formed, not empty, not wrapping, inside one half of the circle (all members have the sign bit of the lower bound),
 stride 0 or the original stride, covering the members. -/
@@ -177,12 +178,34 @@ theorem nsplit_stride (s : SI) (ps : List SI) (h : s.nsplit = .ok ps) :
        simp only [List.mem_cons, List.not_mem_nil, or_false] at hq
        first | (left; exact hq) | (right; exact ⟨_, _, hq⟩))
 
+/-- the pieces of `_ssplit` are in constructor-normal form -/
+theorem ssplit_nrm (p : SI) (hw : p.WF) (l : List SI) (hl : p.ssplit = .ok l) : ∀ q, q ∈ l → Nrm q := by
+  by_cases hwrap : p.ub < p.lb
+  · obtain ⟨A, hsh, hAr, _, _⟩ := ssplit_wrap_shape p hw hwrap
+    rcases hsh with h1 | ⟨B, h2, hBr, _, _⟩
+    · rw [h1] at hl; cases hl
+      intro q hq
+      have : q = A := by simpa using hq
+      subst this; exact hAr
+    · rw [h2] at hl; cases hl
+      intro q hq
+      rcases List.mem_cons.1 hq with h | h
+      · subst h; exact hAr
+      · have : q = B := by simpa using h
+        subst this; exact hBr
+  · have hsp : p.ssplit = .ok [p.renorm] := by unfold SI.ssplit; rw [if_neg hwrap]; rfl
+    rw [hsp] at hl; cases hl
+    intro q hq
+    have : q = p.renorm := by simpa using hq
+    subst this
+    exact nrm_of_renorm p _ rfl (renorm_WFw _ p ⟨hw, rfl⟩).1
+
 /-- **`_psplit`**: the pieces are well formed, not empty, do not wrap, lie in one half of the circle, have stride 0 or
 the stride of the interval, and cover its members -/
 theorem psplit_spec (s : SI) (hw : s.WF) (hnb : s.bottom = false) (hn : s.renorm = s) :
     ∃ ps, s.psplit = .ok ps ∧
       (∀ q, q ∈ ps → WFw s.bits q ∧ q.bottom = false ∧ q.lb ≤ q.ub ∧
-        (q.ub < 2 ^ (s.bits - 1) ∨ 2 ^ (s.bits - 1) ≤ q.lb) ∧ (q.stride = 0 ∨ q.stride = s.stride)) ∧
+        (q.ub < 2 ^ (s.bits - 1) ∨ 2 ^ (s.bits - 1) ≤ q.lb) ∧ (q.stride = 0 ∨ q.stride = s.stride) ∧ Nrm q) ∧
       (∀ x, s.mem x → ∃ q, q ∈ ps ∧ q.mem x) := by
   obtain ⟨ns, hns, hnp, hncov⟩ := nsplit_cover s hw hnb hn
   have hnst := nsplit_stride s ns hns
@@ -202,7 +225,7 @@ theorem psplit_spec (s : SI) (hw : s.WF) (hnb : s.bottom = false) (hn : s.renorm
       rw [← pb] at pns
       have hh := ssplit_halves p pw pns l hl q hql
       rw [pb] at hh
-      refine ⟨qw, qnb, qle, hh, ?_⟩
+      refine ⟨qw, qnb, qle, hh, ?_, ssplit_nrm p pw l hl q hql⟩
       rcases qst with h | h
       · left; exact h
       · rcases hnst p hp with h' | h'
